@@ -404,7 +404,13 @@ func (s *handler) handle(ctx context.Context, req request, w func(func(io.Writer
 				}
 			}
 
-			callParams[i+1+handler.hasCtx] = reflect.ValueOf(rp.Interface())
+			pv := reflect.ValueOf(rp.Interface())
+			if !pv.IsValid() {
+				// a nil interface value (e.g. JSON null for an interface{} parameter):
+				// reflect.ValueOf(nil) is the zero Value, which Call rejects
+				pv = reflect.Zero(typ)
+			}
+			callParams[i+1+handler.hasCtx] = pv
 		}
 	}
 
